@@ -305,7 +305,8 @@ def run_obligation(res, spec, findings, must_raise=False):
                         res["known"][fid] = res["known"].get(fid, 0) + 1
         m = viol_model or ex.model()
         cdoc = doc.model_str(m)
-        ctag, cval = run_with_alarm(lambda: read_ttl(cdoc), 0.4)
+        with shims.real_code():
+            ctag, cval = run_with_alarm(lambda: read_ttl(cdoc), 0.4)
         sym_obs, con_obs = _observed(tag, val, m), _observed(ctag, cval, None)
         if sym_obs != con_obs:
             raise HarnessError("engine/impl disagreement on %r: symbolic %r vs concrete %r" % (cdoc, sym_obs, con_obs))
